@@ -166,6 +166,9 @@ pub fn encode_values(k: Kind, seed: u64) -> Vec<(Vec<u8>, u128)> {
                 }
             }
             push(b"example.org".to_vec());
+            for edge in [&b"trailing "[..], b" leading", b"tab\t", b"nul\0", b"\0", b" ", b"a\r\n", b"UPPER lower"] {
+                push(edge.to_vec());
+            }
             push(b"a:b c\t\"quoted\"".to_vec());
         }
         Kind::MessageIntegrity => {
